@@ -3,7 +3,7 @@ from vlib.spec import Cond, I, B
 from harness import fam
 from harness.fam import conc, concb
 from harness.prog import (check_program, TaskD, SEQ, Y, TASK, ITEM, CONST, READ, WITH, TRY, RAISE, RET,
-                          SYNC, NONE)
+                          SYNC, NONE, ENTER, LEAVE, OVERLAP)
 
 ENC_CTX = [
     "asynq/contexts.py: AsyncContext.__enter__/__exit__, NonAsyncContext.__enter__/__exit__/pause/resume, "
@@ -71,6 +71,17 @@ def ctx_wrap(kind, cid, ov, node):
         return WITH(("sv", 0, ov), WITH(("sv", 0, ov + 1), node))
     if kind == 9:
         return WITH(("attr", ov), WITH(("rec", cid), WITH(("attr", ov + 1), node)))
+    if kind == 10:
+        # an override around a context whose first pause() raises
+        return WITH(("sv", 0, ov), WITH(("rec", cid, ("pause", 1)), node))
+    if kind == 11:
+        return WITH(("rec", cid + "o"), WITH(("rec", cid, ("pause", 1)), node))
+    if kind == 12:
+        # overlapping, non-nested blocks: `with ExitStack() as st: with a: st.enter_context(b); <node>` - a is left
+        # first, then a blocking yield happens with only b open, then b is left
+        return OVERLAP(("rec", cid), ("rec", cid + "b"), node, Y(0, ITEM(0, ov)))
+    if kind == 13:
+        return OVERLAP(("sv", 0, ov), ("rec", cid), node, SEQ(READ(0), Y(0, ITEM(1, ov)), READ(0)))
     raise AssertionError(kind)
 
 
